@@ -227,6 +227,9 @@ def rig_behaviours(r, thorough, codes):
         for hold in (0, 40, 450, 700):        # leak timeout 150 ms: never within 40 % of it
             out.append((f"hold{hold}_{code}", dict(kind="hold", code=code, hold_ms=hold),
                         dict(raw=code << 8, leaked=hold > RIG_LEAK_MS)))
+    # F2 on real processes: the descendant keeps writing while it holds the pipe
+    out.append(("writer0", dict(kind="writer", code=0, period_ms=40, total_ms=800), dict(raw=0, leaked=True)))
+    out.append(("writer7", dict(kind="writer", code=7, period_ms=40, total_ms=800), dict(raw=7 << 8, leaked=True)))
     out.append(("sleepy0", dict(kind="sleep", ms=4000, code=0), dict(raw=0, timed_out=True)))
     out.append(("sleepy1", dict(kind="sleep", ms=4000, code=1), dict(raw=256, timed_out=True)))
     return out
